@@ -154,6 +154,7 @@ type stepper struct {
 	conns      map[int]*cconn
 	order      []int // connection ids in Open order
 	lastQuiet  time.Time
+	armedOnce  bool
 	strayCalls int
 	lastDone   time.Time      // last time a serve goroutine left (the idle timer may have been armed then)
 	prog       map[string]int // critical sections that ran: counted, done, timer (notification hook points)
@@ -622,7 +623,22 @@ func (s *stepper) Step(i int, st replay.Step) (replay.Obs, error) {
 			return nil, fmt.Errorf("behaviour ran into the startup grace")
 		}
 	case "Open":
+		s.mu.Lock()
+		alone := s.clientOpen() == 0
+		s.mu.Unlock()
 		nc, err := s.dial()
+		if gap := time.Since(s.lastQuiet); alone && s.armedOnce && !s.wantHooks && gap >= idleTimeout/2 {
+			// No connection was open for `gap`: the replay stalled for so long between two
+			// back-to-back steps that the idle timer armed at the last close may have
+			// expired before this connection was registered. What follows is a different
+			// (legitimate) scenario than the one the specification predicted.
+			if nc != nil {
+				nc.Close()
+			}
+			s.skipAll = true
+			return replay.Obs{"__skip__": true, "__note__": fmt.Sprintf(
+				"unrealisable: %s passed between the last close and this connect (idleTimeout %s)", gap.Round(time.Millisecond), idleTimeout)}, nil
+		}
 		cc := &cconn{id: c, nc: nc, opened: time.Now()}
 		s.mu.Lock()
 		s.conns[c] = cc
@@ -663,6 +679,7 @@ func (s *stepper) Step(i int, st replay.Step) (replay.Obs, error) {
 		cc.closed = now
 		if s.clientOpen() == 0 {
 			s.lastQuiet = now
+			s.armedOnce = true // from now on an idle timer (not the 60 s grace) may be armed
 		}
 		s.mu.Unlock()
 		obs["closed"] = err == nil
